@@ -29,6 +29,17 @@ func cmdC02(r *RNG, n int, e *Emitter, args []string) {
 		if r.Intn(8) == 0 {
 			c = nil
 		}
+		if i%6 == 4 {
+			// rectangles on a coarse lattice: rings split and joined along shared horizontal edges, frames with several panes
+			G := []int64{16, 40, 80}[r.Intn(3)]
+			s, c = genRectSoup(r, G, 2+r.Intn(3)), genRectSoup(r, G, 2+r.Intn(4))
+			if r.Intn(4) == 0 {
+				s, c = genPinch(r, G)
+			}
+			ct = clip.ClipType(1 + r.Intn(4))
+			fr = []clip.FillRule{clip.EvenOdd, clip.NonZero, clip.NonZero, clip.Positive}[r.Intn(4)]
+			info = GenInfo{Kinds: []string{"rect-soup"}}
+		}
 		if i%6 == 5 {
 			// nested rings (island in hole in island ...), triangles with an axis-parallel side among them: a ring that
 			// is dropped or emitted with the wrong orientation shows as a winding number outside {0, 1}
